@@ -502,6 +502,36 @@ theorem mulDekkerFix_prog (hr : IsRN q r) (f : Fmt) (cb lb zb : Nat) {s : ℕ} (
     add_comm (xh * yl), rn_id hr fT2, rn_id hr fC, rn_id hr fT3, rn_id hr fD,
     show xl * yl + (xh * yh - h + xh * yl + xl * yh) = x * y - h by rw [fS]; ring, rn_id hr fE]
 
+/-- Dekker's product for operands given in normalised form k·2^e with e possibly BELOW emin (subnormal operands):
+only x, y on the 2^emin lattice and ex + ey ≥ emin are needed. -/
+theorem mulDekker_prog_all (hr : IsRN q r) (f : Fmt) (cb : Nat) {s : ℕ} (hC : (decode f cb).toRat? = some (2 ^ s + 1))
+    (h2s : q.p ≤ 2 * s) (h2s2 : 2 * s ≤ q.p + 2) (hs2 : s + 2 ≤ q.p)
+    {kx ky ex ey : ℤ} (hkx1 : 2 ^ (q.p - 1) ≤ |kx|) (hkx2 : |kx| < 2 ^ q.p) (hky1 : 2 ^ (q.p - 1) ≤ |ky|) (hky2 : |ky| < 2 ^ q.p)
+    (he : q.emin ≤ ex + ey) (x y : ℚ) (hx : x = (kx : ℚ) * 2 ^ ex) (hy : y = (ky : ℚ) * 2 ^ ey)
+    (hx0 : Mult q.emin x) (hy0 : Mult q.emin y) :
+    evalQ f r (mulDekker cb) mulDekkerOuts [x, y] = some [r (x * y), x * y - r (x * y)] := by
+  rw [evalQ_mulDekker f r _ _ _ cb hC]
+  have hs1 : 1 ≤ s := by omega
+  have hsp : s < q.p := by omega
+  have A := veltkamp_gen hr 1 (Or.inl rfl) hs1 hsp hkx1 hkx2 (by rw [← hx]; exact hx0)
+  have B := veltkamp_gen hr 1 (Or.inl rfl) hs1 hsp hky1 hky2 (by rw [← hy]; exact hy0)
+  simp only [one_mul] at A B
+  obtain ⟨a1, a2, a3, a4, a5⟩ := A
+  obtain ⟨b1, b2, b3, b4, b5⟩ := B
+  obtain ⟨fA, fB, fC, fD, fT1, fT2, -, fT3, fE, fS⟩ :=
+    dekker_core hr h2s h2s2 hs2 hkx1 hkx2 hky1 hky2 he a1 a2 a3 a4 a5 b1 b2 b3 b4 b5
+  simp only [← hx, ← hy] at fA fB fC fD fT1 fT2 fT3 fE fS
+  simp only
+  rw [mul_comm y (2 ^ s + 1), mul_comm y x]
+  generalize r (r ((2 ^ s + 1) * x) - r (r ((2 ^ s + 1) * x) - x)) = xh at *
+  generalize r (r ((2 ^ s + 1) * y) - r (r ((2 ^ s + 1) * y) - y)) = yh at *
+  generalize r (x - xh) = xl at *
+  generalize r (y - yh) = yl at *
+  generalize r (x * y) = h at *
+  rw [mul_comm yh xh, rn_id hr fA, ← sub_eq_add_neg, rn_id hr fT1, mul_comm yl xh, rn_id hr fB,
+    add_comm (xh * yl), rn_id hr fT2, rn_id hr fC, rn_id hr fT3, rn_id hr fD,
+    show xl * yl + (xh * yh - h + xh * yl + xl * yh) = x * y - h by rw [fS]; ring, rn_id hr fE]
+
 /-- `utils.multiply_dekker` (Veltkamp form of the splitter, the other order of accumulation). -/
 theorem mulDekkerU_prog (hr : IsRN q r) (f : Fmt) (cb : Nat) {s : ℕ} (hC : (decode f cb).toRat? = some (2 ^ s + 1))
     (h2s : q.p ≤ 2 * s) (h2s2 : 2 * s ≤ q.p + 2) (hs2 : s + 2 ≤ q.p)
